@@ -15,7 +15,10 @@ import tempfile
 TLA_DIR = os.path.join(os.path.dirname(os.path.dirname(os.path.abspath(__file__))), "tla")
 
 
-class TlcUnavailable(RuntimeError):
+from mc.kernel import HarnessError
+
+
+class TlcUnavailable(HarnessError):
     pass
 
 
